@@ -113,9 +113,94 @@ fn push_unique(bad: &mut Vec<Violation>, x: Option<Violation>) {
     }
 }
 
+/// A buffer that held name A and was cleared must decode name B exactly like a fresh buffer.
+fn reuse_case(a: &[[u16; 13]], b: &[[u16; 13]], bufsize: usize) -> Option<Violation> {
+    let inp = json!({"kind":"reuse","a":a.iter().map(|f| f.to_vec()).collect::<Vec<_>>(),"b":b.iter().map(|f| f.to_vec()).collect::<Vec<_>>(),"buf":bufsize});
+    let r = catch_quiet(|| {
+        let mut storage = vec![0u8; bufsize];
+        let mut buf = LfnBuffer::new(&mut storage);
+        for f in a.iter().rev() {
+            buf.push(f);
+        }
+        buf.clear();
+        for f in b.iter().rev() {
+            buf.push(f);
+        }
+        let reused = buf.as_str().as_bytes().to_vec();
+        let mut storage2 = vec![0u8; bufsize];
+        let mut fresh = LfnBuffer::new(&mut storage2);
+        for f in b.iter().rev() {
+            fresh.push(f);
+        }
+        (reused, fresh.as_str().as_bytes().to_vec())
+    });
+    match r {
+        Caught::Panic(m) => Some(v("lfn-decode/push-panics", format!("reuse after clear: {}", m), inp)),
+        Caught::Ok((reused, fresh)) if reused != fresh => Some(v(
+            "lfn-decode/cleared-buffer-differs-from-fresh-buffer",
+            format!("after decoding another name and clear(), the name decodes as {:?}; a fresh buffer gives {:?}", String::from_utf8_lossy(&reused), String::from_utf8_lossy(&fresh)),
+            inp,
+        )),
+        _ => None,
+    }
+}
+
 fn decoder_sweep(tier: &str) -> (Vec<Violation>, u64) {
     let mut viols = Vec::new();
     let mut n = 0u64;
+    // (f) reuse after clear: every first-name shape (4 positions x 7 classes) followed by three second names
+    {
+        let pos4 = [0usize, 1, 11, 12];
+        let seconds: Vec<Vec<[u16; 13]>> = vec![
+            vec![{
+                let mut f = [0xFFFFu16; 13];
+                for (i, c) in "hello.txt".encode_utf16().enumerate() {
+                    f[i] = c;
+                }
+                f[9] = 0;
+                f
+            }],
+            vec![[0x61u16; 13], {
+                let mut f = [0xFFFFu16; 13];
+                f[0] = 0x62;
+                f[1] = 0xD83D;
+                f[2] = 0xDE00;
+                f[3] = 0;
+                f
+            }],
+            vec![{
+                let mut f = [0x7Au16; 13];
+                f[12] = 0xD83D;
+                f
+            }],
+        ];
+        let parts = par_ranges(7u64.pow(4), 16, |a, b| {
+            let mut bad = Vec::new();
+            let mut k = 0u64;
+            for x in a..b {
+                let mut f = [0x78u16; 13];
+                let mut y = x;
+                for &p in &pos4 {
+                    f[p] = CLASSES[(y % 7) as usize];
+                    y /= 7;
+                }
+                for s2 in &seconds {
+                    k += 1;
+                    push_unique(&mut bad, reuse_case(&[f], s2, 780));
+                    k += 1;
+                    push_unique(&mut bad, reuse_case(&[f, [0x41; 13]], s2, 64));
+                }
+            }
+            (bad, k)
+        });
+        for (b, k) in parts {
+            for x in b {
+                push_unique(&mut viols, Some(x));
+            }
+            n += k;
+        }
+    }
+    let _ = tier;
     let pos4 = [0usize, 1, 11, 12];
     // (a) one fragment, 4 positions over all classes
     let parts = par_ranges(7u64.pow(4), 16, |a, b| {
@@ -450,6 +535,17 @@ fn listing_alphabet() -> Vec<(String, [u8; 32])> {
         units[12] = 0x72;
         a.push((format!("LFN(start=true,seq={:#x},csum=good)", seq), lfn_slot(seq, true, c1, &units)));
     }
+    {
+        // a (start, seq 1) fragment beginning with an unpaired low surrogate, with a bad and with a good checksum
+        let mut units = [0xFFFFu16; 13];
+        units[0] = 0xDE00;
+        for (i, c) in ".txt".encode_utf16().enumerate() {
+            units[1 + i] = c;
+        }
+        units[5] = 0;
+        a.push(("LFN(start,seq=1,csum=bad,leading low surrogate)".into(), lfn_slot(1, true, c1 ^ 0x55, &units)));
+        a.push(("LFN(start,seq=2,csum=good,leading low surrogate)".into(), lfn_slot(2, true, c1, &units)));
+    }
     a.push(("S1".into(), short_entry(&s1, 0x20, 0, 0, FMT_DATE, FMT_TIME, FMT_DATE, FMT_TIME)));
     a.push(("S2(same checksum)".into(), short_entry(&s2, 0x20, 0, 0, FMT_DATE, FMT_TIME, FMT_DATE, FMT_TIME)));
     let mut del = short_entry(&mkfs::n11("DEL.TXT"), 0x20, 0, 0, FMT_DATE, FMT_TIME, FMT_DATE, FMT_TIME);
@@ -584,6 +680,25 @@ pub fn replay_input(inp: &Value) -> i32 {
                 })
                 .unwrap_or_default();
             decode_case(&frags, inp["buf"].as_u64().unwrap_or(780) as usize).into_iter().collect()
+        }
+        Some("reuse") => {
+            let parse = |k: &str| -> Vec<[u16; 13]> {
+                inp[k]
+                    .as_array()
+                    .map(|a| {
+                        a.iter()
+                            .map(|f| {
+                                let mut x = [0u16; 13];
+                                for (i, u) in f.as_array().unwrap().iter().enumerate().take(13) {
+                                    x[i] = u.as_u64().unwrap_or(0) as u16;
+                                }
+                                x
+                            })
+                            .collect()
+                    })
+                    .unwrap_or_default()
+            };
+            reuse_case(&parse("a"), &parse("b"), inp["buf"].as_u64().unwrap_or(780) as usize).into_iter().collect()
         }
         Some("listing") => {
             let slots: Vec<[u8; 32]> = inp["slots"]
